@@ -1,7 +1,7 @@
 // C36: finalization picks the common ancestor and extends a single chain.
 //
-// Part "compute": every block tree over rounds 1..R with 0, 1 or 2 blocks per round (each block
-// choosing any parent of the previous round; one root in round 0), every subset of the blocks
+// Part "compute": every block tree over rounds 1..R with 0..K blocks per round (K = 2, 3, thorough 4;
+// every assignment rank -> parent in the previous round; one root in round 0), every subset of the blocks
 // marked notarized in their round objects, every query round r and every latest-finalized round
 // 0..r, on a real chain.Chain with real round.Round / block.Block objects; previous-block links
 // either all set or all unset (then resolved by the real GetPreviousBlock through the chain's block
@@ -20,6 +20,7 @@ import (
 	"sort"
 	"strings"
 	"sync"
+	"time"
 
 	"0chain.net/chaincore/block"
 	"0chain.net/chaincore/chain"
@@ -43,8 +44,11 @@ func (t c36Tree) String() string {
 	return "[" + strings.Join(s, " ") + "]"
 }
 
-// c36Trees enumerates every tree over rounds 1..R with at most 2 blocks per round.
-func c36Trees(R int) []c36Tree {
+// c36Trees enumerates every tree over rounds 1..R with at most K blocks per round: a round holds
+// j = 0..K blocks with ranks 0..j-1 and EVERY function rank -> parent among the blocks of the
+// previous round (so every order of ranks among siblings and cousins occurs: "rank0->p, rank1->p,
+// rank2->q" and "rank0->p, rank1->q, rank2->p" are different trees). Once a round is empty the tree ends.
+func c36Trees(R, K int) []c36Tree {
 	var out []c36Tree
 	var rec func(t c36Tree, rnd int, prevRound []int)
 	rec = func(t c36Tree, rnd int, prevRound []int) {
@@ -52,33 +56,84 @@ func c36Trees(R int) []c36Tree {
 		if rnd > R || len(prevRound) == 0 {
 			return
 		}
-		// one block
-		for _, p := range prevRound {
-			n := len(t.Parent)
-			t2 := c36Tree{append(append([]int{}, t.Parent...), p), append(append([]int{}, t.Round...), rnd), append(append([]int{}, t.Rank...), 0)}
-			rec(t2, rnd+1, []int{n})
-		}
-		// two blocks
-		for _, p1 := range prevRound {
-			for _, p2 := range prevRound {
+		for j := 1; j <= K; j++ {
+			// every assignment of parents to the j blocks of this round
+			total := 1
+			for i := 0; i < j; i++ {
+				total *= len(prevRound)
+			}
+			for a := 0; a < total; a++ {
 				n := len(t.Parent)
-				t2 := c36Tree{append(append([]int{}, t.Parent...), p1, p2), append(append([]int{}, t.Round...), rnd, rnd), append(append([]int{}, t.Rank...), 0, 1)}
-				rec(t2, rnd+1, []int{n, n + 1})
+				t2 := c36Tree{append([]int{}, t.Parent...), append([]int{}, t.Round...), append([]int{}, t.Rank...)}
+				x := a
+				var cur []int
+				for i := 0; i < j; i++ {
+					t2.Parent = append(t2.Parent, prevRound[x%len(prevRound)])
+					x /= len(prevRound)
+					t2.Round = append(t2.Round, rnd)
+					t2.Rank = append(t2.Rank, i)
+					cur = append(cur, n+i)
+				}
+				rec(t2, rnd+1, cur)
 			}
 		}
 	}
 	rec(c36Tree{[]int{-1}, []int{0}, []int{0}}, 1, []int{0})
-	// the recursion emits every prefix; keep each distinct tree once
-	seen := map[string]bool{}
-	var uniq []c36Tree
-	for _, t := range out {
-		k := fmt.Sprint(t.Parent, t.Round)
-		if !seen[k] {
-			seen[k] = true
-			uniq = append(uniq, t)
+	return out
+}
+
+// c36Family is one bounded family of trees of the compute part.
+type c36Family struct {
+	Name string
+	R, K int
+	// LastRoundMasks: instead of every subset of all blocks, every subset of the blocks of the last
+	// populated round (all other blocks listed) and "all but one block listed".
+	LastRoundMasks bool
+}
+
+func (f c36Family) masks(t c36Tree) []int {
+	nb := len(t.Parent) - 1
+	if !f.LastRoundMasks {
+		out := make([]int, 1<<nb)
+		for i := range out {
+			out[i] = i
+		}
+		return out
+	}
+	full := 1<<nb - 1
+	last := 0
+	for i := 1; i <= nb; i++ {
+		if t.Round[i] > last {
+			last = t.Round[i]
 		}
 	}
-	return uniq
+	var top []int
+	for i := 1; i <= nb; i++ {
+		if t.Round[i] == last {
+			top = append(top, i)
+		}
+	}
+	seen := map[int]bool{}
+	var out []int
+	add := func(m int) {
+		if !seen[m] {
+			seen[m] = true
+			out = append(out, m)
+		}
+	}
+	for sub := 0; sub < 1<<len(top); sub++ {
+		m := full
+		for k, i := range top {
+			if sub&(1<<k) == 0 {
+				m &^= 1 << (i - 1)
+			}
+		}
+		add(m)
+	}
+	for i := 1; i <= nb; i++ {
+		add(full &^ (1 << (i - 1)))
+	}
+	return out
 }
 
 type c36World struct {
@@ -125,8 +180,9 @@ func (w *c36World) link(t c36Tree, linked bool) {
 }
 
 // setRounds installs fresh round objects 1..R whose notarized lists follow mask; when sparse, a
-// round without notarized blocks gets no round object (except round `keep`).
-func (w *c36World) setRounds(t c36Tree, R int, mask int, sparse bool, keep int) {
+// round without notarized blocks gets no round object (except round `keep`). order selects the
+// order in which the blocks are added to their round (the round keeps them sorted by rank).
+func (w *c36World) setRounds(t c36Tree, R int, mask int, sparse bool, keep int, order int) {
 	for _, r := range w.rounds {
 		if r != nil {
 			w.c.VerifStructsDeleteRound(w.ctx, r)
@@ -144,6 +200,17 @@ func (w *c36World) setRounds(t c36Tree, R int, mask int, sparse bool, keep int) 
 			continue
 		}
 		r := round.NewRound(int64(k))
+		// order in which the round learns of its notarized blocks: by rank, reversed, rotated
+		switch order {
+		case 1:
+			for a, b := 0, len(nb)-1; a < b; a, b = a+1, b-1 {
+				nb[a], nb[b] = nb[b], nb[a]
+			}
+		case 2:
+			if len(nb) > 1 {
+				nb = append(nb[1:], nb[0])
+			}
+		}
 		for _, i := range nb {
 			r.AddNotarizedBlock(w.blocks[i])
 		}
@@ -194,15 +261,35 @@ func c36IsAncestor(t c36Tree, a, b int) bool { // a strict ancestor of b
 func c36() {
 	initRepo()
 	run := ev.Start("C36")
-	R := run.Pick(4, 5)
-	trees := c36Trees(R)
-	run.Bounds["compute.rounds"] = R
-	run.Bounds["compute.blocks_per_round"] = "0..2"
-	run.Bounds["compute.trees"] = len(trees)
-	run.Bounds["compute.notarized"] = "every subset of the non-root blocks"
+	fams := []c36Family{{"k2", 4, 2, false}, {"k3", 3, 3, false}}
+	if run.Thorough() {
+		fams = []c36Family{{"k2", 5, 2, false}, {"k3", 3, 3, false}, {"k4", 2, 4, false}, {"k3deep", 4, 3, true}}
+	}
+	type item struct {
+		fam c36Family
+		fi  int
+		ti  int
+		t   c36Tree
+	}
+	var items []item
+	var famDesc []string
+	for fi, f := range fams {
+		ts := c36Trees(f.R, f.K)
+		for ti, t := range ts {
+			items = append(items, item{f, fi, ti, t})
+		}
+		m := "every subset of the non-root blocks listed as notarized"
+		if f.LastRoundMasks {
+			m = "every subset of the last populated round listed (all others listed), and all-but-one"
+		}
+		famDesc = append(famDesc, fmt.Sprintf("%s: %d rounds, 0..%d blocks per round, every rank->parent assignment, %d trees; %s", f.Name, f.R, f.K, len(ts), m))
+	}
+	run.Bounds["compute.families"] = famDesc
+	run.Bounds["compute.trees"] = len(items)
 	run.Bounds["compute.query"] = "every round r in 1..R x every latest-finalized round 0..r"
-	run.Bounds["compute.modes"] = []string{"previous-block pointers set", "pointers unset, blocks in the chain's cache", "pointers set, no round object for rounds without notarized blocks"}
+	run.Bounds["compute.modes"] = []string{"previous-block pointers set, blocks added to their round in rank order", "pointers unset (blocks in the chain's cache), added in reverse rank order", "pointers set, no round object for rounds without notarized blocks, added in rotated order (2-blocks-per-round family only)"}
 
+	tCompute := time.Now()
 	workers := runtime.NumCPU()
 	if workers > 16 {
 		workers = 16
@@ -222,17 +309,21 @@ func c36() {
 			defer wg.Done()
 			local := map[string]struct{}{}
 			var states, calls int64
-			for ti := wk; ti < len(trees); ti += workers {
-				t := trees[ti]
+			for ii := wk; ii < len(items); ii += workers {
+				it := items[ii]
+				t, R, ti := it.t, it.fam.R, ii
 				w := newC36World(t)
 				nb := len(t.Parent) - 1
-				for mask := 0; mask < 1<<nb; mask++ {
+				for _, mask := range it.fam.masks(t) {
 					states++
 					for mode := 0; mode < 3; mode++ {
 						sparse := mode == 2
+						if sparse && it.fam.K > 2 {
+							continue // the missing-round-object mode is explored on the 2-blocks-per-round family
+						}
 						for r := 1; r <= R; r++ {
 							w.link(t, mode != 1)
-							w.setRounds(t, R, mask, sparse, r)
+							w.setRounds(t, R, mask, sparse, r, mode)
 							for lfbr := 0; lfbr <= r; lfbr++ {
 								if mode == 1 {
 									w.link(t, false)
@@ -296,6 +387,7 @@ func c36() {
 		}(wk)
 	}
 	wg.Wait()
+	run.Extra["compute_wall_s"] = time.Since(tCompute).Seconds()
 	sort.SliceStable(viols, func(i, j int) bool { return viols[i].order < viols[j].order })
 	for _, v := range viols {
 		run.Violation(v.key, v.what, v.replay)
@@ -303,13 +395,13 @@ func c36() {
 	for k := range outcomes {
 		run.Outcome("compute|" + k)
 	}
-	for _, ti := range []int{len(trees) - 1, len(trees) / 2, len(trees) / 3} {
-		run.Sample(map[string]any{"part": "compute", "tree": trees[ti].String(), "then": "every notarized subset, r, lfb round, 3 modes"})
+	for _, ii := range []int{len(items) - 1, len(items) / 2, len(items) / 3} {
+		run.Sample(map[string]any{"part": "compute", "family": items[ii].fam.Name, "tree": items[ii].t.String(), "then": "every notarized subset, r, lfb round, 3 modes"})
 	}
 
 	c36Finalize(run)
 
-	run.Rule = "compute: every block tree (<=2 blocks per round, R rounds) x every notarized subset x every (r, lfb round) x 3 link/round-object modes, distinct = distinct (tree, r, start round, chosen block); finalize: see bounds"
+	run.Rule = "compute: every block tree of each family (<=K blocks per round, every rank->parent assignment, R rounds) x every notarized subset x every (r, lfb round) x 3 link/round-object modes, distinct = distinct (tree, r, start round, chosen block); finalize: see bounds"
 	run.Assumptions = []string{
 		"'the latest round that has any' is searched from the given round downwards but not at or below the latest finalized round (the function's contract)",
 		"every block of a round's notarized list belongs to that round and its parent to the previous round (as block validation enforces)",
